@@ -22,6 +22,14 @@
 (*                       (a condition left behind when the equation was deleted): the      *)
 (*                       library tolerates that, and such a condition stores NO series -   *)
 (*                       the stored series are the model's variables, each horizon+1 long. *)
+(*   Block(V)            solver.ParseString(<a block over the variables V>) on the solver   *)
+(*                       object - the first block, or ANOTHER block on a solver that has    *)
+(*                       already solved one.  The next Solve is over V: its results REPLACE  *)
+(*                       what the holder held (no series of the earlier block survives);    *)
+(*                       the MaxTime line belongs to the text, so a new block un-states the  *)
+(*                       block horizon, while what was set on the solver object (MaxTime,    *)
+(*                       TraceStep, steady state) stays.  Without a Block the Solve is over  *)
+(*                       the names stored so far (each with its initial value).              *)
 (*   SetTrace(w)         solver.TraceStep = a period inside (1..horizon) / outside the     *)
 (*                       horizon, set before the solve (convergence tracing of that step)  *)
 (*   SetSteady           solver.ParameterSolveInitialSteadyState = True before the solve    *)
@@ -160,15 +168,18 @@ VARIABLES phase,     \* "build" | "run" (the holder is a solver's, after a solve
           stated,    \* [block, solver]: where a horizon has been stated, each [is, h]
           conds,     \* initial conditions written into the equation block: set of [name, sp]
           opts,      \* solver options set before the solve: [trace, steady]
+          pending,   \* [is, vars]: a block over vars has been parsed and not yet solved
           hist       \* history of calls (see Op)
 
-vars == << phase, holder, solved, table, stated, conds, opts, hist >>
+vars == << phase, holder, solved, table, stated, conds, opts, pending, hist >>
+
+NoPending == [is |-> FALSE, vars |-> {}]
 
 NoOpts == [trace |-> "none", steady |-> FALSE]
 TraceWheres == {"inside", "outside"}
 
 Op(op, n, len, kind, fmt, h) ==
-    [op |-> op, name |-> n, len |-> len, kind |-> kind, fmt |-> fmt, h |-> h, place |-> "", sp |-> FALSE]
+    [op |-> op, name |-> n, len |-> len, kind |-> kind, fmt |-> fmt, h |-> h, place |-> "", sp |-> FALSE, vars |-> << >>]
 Places == {"block", "model", "solver"}
 NoHorizon == [is |-> FALSE, h |-> 0]
 Unstated == [block |-> NoHorizon, solver |-> NoHorizon]
@@ -180,7 +191,7 @@ NotSolved == [is |-> FALSE, horizon |-> 0]
 EmptyHolder == [n \in {} |-> [len |-> 0, kind |-> "int"]]
 
 Init == /\ phase = "build" /\ holder = EmptyHolder /\ solved = NotSolved
-        /\ table = NoTable /\ stated = Unstated /\ conds = {} /\ opts = NoOpts /\ hist = << >>
+        /\ table = NoTable /\ stated = Unstated /\ conds = {} /\ opts = NoOpts /\ pending = NoPending /\ hist = << >>
 
 Put(n, len, kind) ==
     /\ n \in DOMAIN holder => len > holder[n].len
@@ -188,60 +199,70 @@ Put(n, len, kind) ==
     /\ holder' = PutOp(holder, n, len, kind)
     /\ table' = NoTable /\ solved' = NotSolved
     /\ hist' = Append(hist, Op("put", n, len, kind, "", 0))
-    /\ UNCHANGED << phase, stated, conds, opts >>
+    /\ UNCHANGED << phase, stated, conds, opts, pending >>
 
 Store(n, len, kind) ==
     /\ Cardinality(DOMAIN holder \cup {n}) <= MaxNames
     /\ holder' = StoreOp(holder, n, len, kind)
     /\ table' = NoTable /\ solved' = NotSolved
     /\ hist' = Append(hist, Op("store", n, len, kind, "", 0))
-    /\ UNCHANGED << phase, stated, conds, opts >>
+    /\ UNCHANGED << phase, stated, conds, opts, pending >>
 
 Delete(n) ==
     /\ n \in DOMAIN holder
     /\ holder' = DeleteOp(holder, n)
     /\ table' = NoTable /\ solved' = NotSolved
     /\ hist' = Append(hist, Op("del", n, 0, "int", "", 0))
-    /\ UNCHANGED << phase, stated, conds, opts >>
+    /\ UNCHANGED << phase, stated, conds, opts, pending >>
 
 List ==
     /\ hist' = Append(hist, Op("list", << >>, 0, "int", "", 0))
-    /\ UNCHANGED << phase, holder, solved, table, stated, conds, opts >>
+    /\ UNCHANGED << phase, holder, solved, table, stated, conds, opts, pending >>
 
 Condition(n, sp) ==
     /\ phase = "build"
     /\ conds' = conds \cup {[name |-> n, sp |-> sp]}
     /\ hist' = Append(hist, [Op("cond", n, 0, "num", "", 0) EXCEPT !.sp = sp])
-    /\ UNCHANGED << phase, holder, solved, table, stated, opts >>
+    /\ UNCHANGED << phase, holder, solved, table, stated, opts, pending >>
 
 SetTrace(w) ==
     /\ phase = "build"
     /\ w = "inside" => Effective(stated) >= 1
     /\ opts' = [opts EXCEPT !.trace = w]
     /\ hist' = Append(hist, [Op("trace", << >>, 0, "int", "", 0) EXCEPT !.place = w])
-    /\ UNCHANGED << phase, holder, solved, table, stated, conds >>
+    /\ UNCHANGED << phase, holder, solved, table, stated, conds, pending >>
 
 SetSteady ==
     /\ phase = "build"
     /\ opts' = [opts EXCEPT !.steady = TRUE]
     /\ hist' = Append(hist, Op("steady", << >>, 0, "int", "", 0))
-    /\ UNCHANGED << phase, holder, solved, table, stated, conds >>
+    /\ UNCHANGED << phase, holder, solved, table, stated, conds, pending >>
 
 StateHorizon(place, h) ==
     /\ phase = "build"
     /\ stated' = IF place = "solver" THEN [stated EXCEPT !.solver = [is |-> TRUE, h |-> h]]
                                      ELSE [stated EXCEPT !.block = [is |-> TRUE, h |-> h]]
     /\ hist' = Append(hist, [Op("horizon", << >>, 0, "int", "", h) EXCEPT !.place = place])
-    /\ UNCHANGED << phase, holder, solved, table, conds, opts >>
+    /\ UNCHANGED << phase, holder, solved, table, conds, opts, pending >>
 
-(* SetInitialConditions gives every variable one value; each step appends one to every series *)
+Block(V) ==
+    /\ pending' = [is |-> TRUE, vars |-> V]
+    /\ phase' = "build"
+    /\ conds' = {}
+    /\ stated' = [stated EXCEPT !.block = NoHorizon]
+    /\ hist' = Append(hist, [Op("block", << >>, 0, "num", "", 0) EXCEPT !.vars = SortedSeq(V)])
+    /\ UNCHANGED << holder, solved, table, opts >>
+
+(* SetInitialConditions builds a NEW holder: every variable gets one value, each step appends one *)
 Solve(vs) ==
     /\ phase = "build"
-    /\ \A n \in DOMAIN holder : holder[n].len = 1
-    /\ holder' = SolveOp(holder, vs, Effective(stated))
+    /\ ~pending.is => \A n \in DOMAIN holder : holder[n].len = 1
+    /\ holder' = IF pending.is THEN SolveOp(EmptyHolder, pending.vars \cup vs, Effective(stated))
+                               ELSE SolveOp(holder, vs, Effective(stated))
     /\ solved' = [is |-> TRUE, horizon |-> Effective(stated)]
     /\ phase' = "run"
     /\ table' = NoTable
+    /\ pending' = NoPending
     /\ hist' = Append(hist, Op("solve", << >>, 0, "num", "", Effective(stated)))
     /\ UNCHANGED << stated, conds, opts >>
 
@@ -251,6 +272,7 @@ SolveFailed(obs) ==
     /\ solved' = NotSolved
     /\ phase' = "run"
     /\ table' = NoTable
+    /\ pending' = NoPending
     /\ hist' = Append(hist, Op("solvefail", << >>, 0, "num", "", 0))
     /\ UNCHANGED << stated, conds, opts >>
 
@@ -258,7 +280,7 @@ Render(fmt) ==
     /\ fmt \in IntOnlyFormats => AllInt(holder)
     /\ table' = RenderOp(holder, fmt)
     /\ hist' = Append(hist, Op("render", << >>, 0, "int", fmt, 0))
-    /\ UNCHANGED << phase, holder, solved, stated, conds, opts >>
+    /\ UNCHANGED << phase, holder, solved, stated, conds, opts, pending >>
 
 Next == /\ Len(hist) < MaxOps
         /\ \/ \E n \in Names, len \in 0..MaxLen, kind \in Kinds : Put(n, len, kind) \/ Store(n, len, kind)
@@ -266,6 +288,7 @@ Next == /\ Len(hist) < MaxOps
            \/ List
            \/ \E n \in Names, sp \in BOOLEAN : Condition(n, sp)
            \/ \E h \in Horizons, pl \in Places : StateHorizon(pl, h)
+           \/ \E V \in SUBSET Names : Block(V)
            \/ \E w \in TraceWheres : SetTrace(w)
            \/ SetSteady
            \/ Solve({})
@@ -290,6 +313,6 @@ TypeOK == /\ phase \in {"build", "run"}
           /\ \A n \in DOMAIN holder : holder[n].len \in Nat /\ holder[n].kind \in Kinds
           /\ Cardinality(DOMAIN holder) <= MaxNames + 2
           /\ Len(hist) <= MaxOps
-          /\ solved.is => solved.horizon = Effective(stated)
-          /\ table.done => hist # << >> /\ hist[Len(hist)].op \in ObsOps \cup {"horizon", "cond", "trace", "steady"}
+          /\ (solved.is /\ ~pending.is /\ phase = "run") => solved.horizon = Effective(stated)
+          /\ table.done => hist # << >> /\ hist[Len(hist)].op \in ObsOps \cup {"horizon", "cond", "trace", "steady", "block"}
 =============================================================================
